@@ -53,9 +53,58 @@ var families = []family{
 	// quiescent: a writer (several batches in reality: a delete-heavy history on a sparse part of the graph; here: one
 	// transaction that deletes two items and rewrites the entry node) finishes before the first search begins
 	{"quiesce", "shared pre 7 8 | beginW 2 ; access 2 0 ; del 2 0 7 ; del 2 0 8 ; put 2 0 1 ; commit 2 ; finish 2 ; beginR 1 ; access 1 0 ; read 1 0 1 ; read 1 0 2 ; leave 1 0 ; end 1 ; beginR 3 ; access 3 0 ; read 3 0 1 ; read 3 0 3 ; leave 3 0 ; end 3 | R=1 R2=3", true, "R=ok R2=ok"},
+	// Families that drive the yield points inside the cache manager (forced2.go). The abstract line is the
+	// serialisation the manager's locks must enforce: the model's `access` is one atomic step (lookup, construction,
+	// registration and lock under the manager lock), a writer's `access` is not enabled while the object is held,
+	// and `finish` of a rolled-back writer takes the object out of the map before anybody else can have it.
+	// Transactions: 1 = the overlapping search, 2 = writer (1), 3 = writer 2, 4 = the search after quiescence.
+	{"coldrace/nCreate", coldraceLine, true, "R=ok R2=ok"},
+	{"coldrace/nCreate/any", coldraceLine, true, "R=ok R2=ok"},
+	{"coldrace/nStore", coldraceLine, true, "R=ok R2=ok"},
+	{"coldrace/nStore/any", coldraceLine, true, "R=ok R2=ok"},
+	{"coldrace/nRLock", coldraceLine, true, "R=ok R2=ok"},
+	{"coldrace/nRLock/any", coldraceLine, true, "R=ok R2=ok"},
+	{"coldrace/nMgrUnlock", coldraceLine, true, "R=ok R2=ok"},
+	{"coldrace/nMgrUnlock/any", coldraceLine, true, "R=ok R2=ok"},
+	{"coldrace/callF", coldraceLine, true, "R=ok R2=ok"},
+	{"coldrace/callF/any", coldraceLine, true, "R=ok R2=ok"},
+	{"wfailq/delete+insertV", wfailqLine, true, "R2=ok"},
+	{"wfailq/insert+insertV", wfailqLine, true, "R2=ok"},
+	{"wfailq/move+move", wfailqLine, true, "R2=ok"},
+	{"wfailq/any", wfailqLine, true, "R2=ok"},
+	{"wfailq/mgr/delete+insertV", wfailqMgrLine, true, "S=ok R2=ok"},
+	{"wfailq/mgr/move+insertV", wfailqMgrLine, true, "S=ok R2=ok"},
+	{"wfailq/mgr/insert+delete", wfailqMgrLine, true, "S=ok R2=ok"},
+	{"wfailq/mgr/any", wfailqMgrLine, true, "S=ok R2=ok"},
+	// F6 (known finding): a search runs from start to end between the failed writer's Commit and the queued writer's
+	// end and registers a new shared cache, which the queued writer (on a temporary object) never updates. Not
+	// modelled: a writer's `cold` is not enabled while the map has an entry (invariant NOInv.wmap) - the model
+	// excludes exactly this step; judged by the oracle only.
+	{"wfailq/late/insert+insertV", "", false, ""},
+	{"wfailq/late/delete+insertV", "", false, ""},
+	// the reader had looked the object up; after the rolled-back writer gave it up it finds it scrapped: temporary cold object
+	{"wfailr/insert", wfailrLine, true, "S=ok R2=ok"},
+	{"wfailr/any", wfailrLine, true, "S=ok R2=ok"},
+	{"wokq/any", "shared | beginW 2 ; access 2 0 ; put 2 0 7 ; commit 2 ; beginW 3 ; finish 2 ; access 3 0 ; put 3 0 8 ; commit 3 ; finish 3 ; beginR 4 ; access 4 0 ; read 4 0 7 ; read 4 0 8 ; read 4 0 2 ; leave 4 0 ; backfill 4 7 ; backfill 4 8 ; end 4 | R2=4", true, "R2=ok"},
+	{"wokq/mgr/any", "shared | beginW 2 ; access 2 0 ; put 2 0 7 ; commit 2 ; beginW 3 ; beginR 1 ; access 1 0 ; read 1 0 7 ; read 1 0 2 ; leave 1 0 ; backfill 1 7 ; end 1 ; finish 2 ; access 3 0 ; put 3 0 8 ; commit 3 ; finish 3 ; beginR 4 ; access 4 0 ; read 4 0 7 ; read 4 0 8 ; read 4 0 2 ; leave 4 0 ; backfill 4 7 ; backfill 4 8 ; end 4 | S=1 R2=4", true, "S=ok R2=ok"},
 	{"w1and", "", false, ""},
 	{"w2c", "", false, ""},
 	{"dangling", "", false, ""},
+}
+
+// the cold search registers and read-locks its new object in one step, the writer waits for it
+const coldraceLine = "shared | beginR 1 ; access 1 0 ; beginW 2 ; read 1 0 1 ; read 1 0 2 ; leave 1 0 ; end 1 ; access 2 0 ; put 2 0 7 ; commit 2 ; finish 2 ; beginR 4 ; access 4 0 ; read 4 0 7 ; read 4 0 2 ; leave 4 0 ; backfill 4 7 ; end 4 | R=1 R2=4"
+
+// writer 2 (tx 3) has begun; it can take the object only after the rolled-back writer 1 (tx 2) has given it up
+// (`finish 2`: scrapped and out of the map in one step), finds it scrapped and is sent to a temporary cold object
+// (`cold 3 0` = Label.accessCold); the search after quiescence (tx 4) builds the manager's new object
+const wfailqLine = "shared | beginW 2 ; access 2 0 ; put 2 0 7 ; rollback 2 ; beginW 3 ; finish 2 ; cold 3 0 ; put 3 0 8 ; commit 3 ; finish 3 ; beginR 4 ; access 4 0 ; read 4 0 7 ; read 4 0 8 ; read 4 0 2 ; leave 4 0 ; backfill 4 8 ; end 4 | R2=4"
+const wfailqMgrLine = "shared | beginW 2 ; access 2 0 ; put 2 0 7 ; rollback 2 ; beginW 3 ; beginR 1 ; access 1 0 ; read 1 0 7 ; read 1 0 2 ; leave 1 0 ; end 1 ; finish 2 ; cold 3 0 ; put 3 0 8 ; commit 3 ; finish 3 ; beginR 4 ; access 4 0 ; read 4 0 7 ; read 4 0 8 ; read 4 0 2 ; leave 4 0 ; backfill 4 8 ; end 4 | S=1 R2=4"
+
+const wfailrLine = "shared | beginW 2 ; access 2 0 ; put 2 0 7 ; rollback 2 ; beginR 1 ; finish 2 ; cold 1 0 ; read 1 0 7 ; read 1 0 2 ; leave 1 0 ; end 1 ; beginR 4 ; access 4 0 ; read 4 0 7 ; read 4 0 2 ; leave 4 0 ; end 4 | S=1 R2=4"
+
+func cacheFamily(name string) bool {
+	return strings.HasPrefix(name, "coldrace/") || strings.HasPrefix(name, "wfailq/") || strings.HasPrefix(name, "wokq/") || strings.HasPrefix(name, "wfailr/")
 }
 
 type childOut struct {
@@ -115,6 +164,33 @@ func crashKind(co childOut, dir string) (kind, text string) {
 	}
 }
 
+// crashFrames: the functions of the repository on the stack of the goroutine that brought the process down
+func crashFrames(out string) string {
+	i := strings.Index(out, "fatal error: ")
+	if j := strings.Index(out, "panic: "); i < 0 || (j >= 0 && j < i) {
+		i = j
+	}
+	if i < 0 {
+		return lastLines(out, 4)
+	}
+	rest := out[i:]
+	if k := strings.Index(rest, "\ngoroutine "); k >= 0 {
+		rest = rest[k+1:]
+	}
+	g, _, _ := strings.Cut(rest, "\n\n")
+	var fs []string
+	for _, l := range strings.Split(g, "\n") {
+		if strings.HasPrefix(l, "github.com/semafind/semadb/") && len(fs) < 6 {
+			l = strings.TrimPrefix(l, "github.com/semafind/semadb/")
+			if p := strings.LastIndex(l, "("); p > 0 {
+				l = l[:p]
+			}
+			fs = append(fs, l)
+		}
+	}
+	return "stack: " + strings.Join(fs, " <- ")
+}
+
 func lastLines(s string, n int) string {
 	ls := strings.Split(strings.TrimSpace(s), "\n")
 	if len(ls) > n {
@@ -126,7 +202,7 @@ func lastLines(s string, n int) string {
 func implLine(fr forcedResult) string {
 	var ps []string
 	for _, t := range fr.Threads {
-		if t.Thread == "W" {
+		if strings.HasPrefix(t.Thread, "W") { // writers are judged, not part of the outcome line
 			continue
 		}
 		ps = append(ps, t.Thread+"="+t.Class)
@@ -154,12 +230,27 @@ func parentMain(seed uint64, out, tier string) {
 	ps := parentStats{kinds: map[string]int{}, wall: map[string]float64{}}
 	variants := 1
 	stressMs := 2500
-	stressCfg := []string{"shared/cold", "shared/warm", "limited/partial", "private/cold"}
-	if tier == "thorough" {
+	stressCfg := []string{"shared/cold", "shared/warm", "limited/partial", "limited/two", "private/cold"}
+	fams := families
+	switch tier {
+	case "thorough":
 		variants = 6
 		stressMs = 12000
 		stressCfg = []string{"shared/cold", "shared/warm", "shared/partial", "shared/cold", "limited/cold", "limited/partial", "limited/warm",
-			"private/cold", "private/warm", "private/partial", "shared/warm", "private/cold"}
+			"limited/two", "limited/two", "private/cold", "private/warm", "private/partial", "shared/warm", "private/cold"}
+	case "focus":
+		// props/C09.py search(): the tie to the cache manager's protocol broke (pin / proof / correspondence) - the
+		// families that drive the manager's yield points with more data variants, the failing / locked writer
+		// families, and the shared-manager stress
+		variants = 3
+		stressMs = 4000
+		stressCfg = []string{"limited/two", "limited/two", "limited/partial", "shared/cold"}
+		fams = nil
+		for _, f := range families {
+			if cacheFamily(f.name) || f.name == "wfail" || f.name == "precommit" || f.name == "locked" || f.name == "seq" {
+				fams = append(fams, f)
+			}
+		}
 	}
 	var implSamples []string
 	// one oracle failure per signature (the list handed to the runner is capped)
@@ -173,7 +264,7 @@ func parentMain(seed uint64, out, tier string) {
 		}
 	}
 	// ------------------------------------------------------------------ forced schedules
-	for _, f := range families {
+	for _, f := range fams {
 		for v := 0; v < variants; v++ {
 			t0 := time.Now()
 			var fr forcedResult
@@ -254,7 +345,7 @@ func parentMain(seed uint64, out, tier string) {
 		if rl == "" || json.Unmarshal([]byte(rl), &sr) != nil {
 			kind, text := crashKind(co, dir)
 			ps.kinds["stress:"+mode+":"+kind]++
-			fail("stress:"+mode+":"+kind, fmt.Sprintf("stress %s: %s ; %s", cfg, text, lastLines(co.stdout, 4)), replay)
+			fail("stress:"+mode+":"+kind, fmt.Sprintf("stress %s: the process died after %.1f s: %s ; %s", cfg, co.dur.Seconds(), text, crashFrames(co.stdout)), replay)
 			continue
 		}
 		ps.searches += sr.Searches
